@@ -51,6 +51,11 @@ class Function:
                 self.blocks[b.id] = b
             self.entry = cfg["entry"]
             self.exit = cfg["exit"]
+            # a failed assertion aborts: its block is a dead end, not a path to the function exit
+            for b in self.blocks.values():
+                if any(isinstance(e, dict) and e.get("k") == "call" and e.get("fn") == "__assert_fail"
+                       for e in b.elems):
+                    b.succs = []
             for b in self.blocks.values():
                 for s in b.succs:
                     if s is not None:
